@@ -31,6 +31,7 @@ Value tokens:  decimal | +ovf/-ovf (|v| >= 2^1024) | +udf/-udf (0 < |v| < 2^-108
 Columns per family (after fn, arg1, arg2 as hex floats):
   uni/poly/int/powm1: value sens          mgamma: Gamma_k sens logGamma_k sens
   bessel: I sens logI sens                logadd: log(e^a+e^b) sens log(e^a-e^b) sens
+  shape:  igshape: Gamma(a) psi(a)        beshape: 1/Gamma(v+1) psi(v+1)|pole   (50 / 30 digits)
   igam:   lower(a,x) upper(a,x) x^a*e^-x  (unclipped decimals: P and Q are ratios of
           huge/tiny numbers) and |a dlog f/da| for f = P, Q, lower, upper, dP/dx
 
@@ -213,6 +214,23 @@ def mgamma(k, x):
     g = mp.exp(lg)
     ds = x * sum(mp.psi(0, a) for a in args)
     return val(g), sens(g, ds * g), val(lg), sens(lg, ds)
+
+
+def shape(fn, a):
+    """per-shape constants of the computed reference of the range lattice L6 (ref6.go):
+    igshape: Gamma(a), psi(a);  beshape: 1/Gamma(v+1) (0 at the poles), psi(v+1)"""
+    mp.dps = DPS + 10
+    try:
+        if fn == "igshape":
+            return [mpmath.nstr(mp.gamma(a), 50, min_fixed=0, max_fixed=0, strip_zeros=True),
+                    mpmath.nstr(mp.psi(0, a), 30, min_fixed=0, max_fixed=0, strip_zeros=True)]
+        t = a + 1
+        if t <= 0 and is_int(t):
+            return ["0", "pole"]
+        return [mpmath.nstr(mp.rgamma(t), 50, min_fixed=0, max_fixed=0, strip_zeros=True),
+                mpmath.nstr(mp.psi(0, t), 30, min_fixed=0, max_fixed=0, strip_zeros=True)]
+    finally:
+        mp.dps = DPS
 
 
 def integer(fn, n):
@@ -428,6 +446,8 @@ def work(line):
             out = mgamma(a, x)
         elif fn in ("factorial", "bernoulli"):
             out = integer(fn, x)
+        elif fn in ("igshape", "beshape"):
+            out = shape(fn, a)
         elif fn == "igam":
             out = igam(a, x)
         elif fn == "bessel":
@@ -445,8 +465,8 @@ def work(line):
 
 FAMILY = {"digamma": "uni", "trigamma": "uni", "logerfc": "uni", "zeta": "uni", "sinpi": "uni",
           "cospi": "uni", "polygamma": "poly", "mgamma": "mgamma", "factorial": "int",
-          "bernoulli": "int", "igam": "igam", "bessel": "bessel", "logadd": "logadd", "powm1": "powm1"}
-ORDER = ["uni", "poly", "mgamma", "int", "igam", "bessel", "logadd", "powm1"]
+          "bernoulli": "int", "igshape": "shape", "beshape": "shape", "igam": "igam", "bessel": "bessel", "logadd": "logadd", "powm1": "powm1"}
+ORDER = ["uni", "poly", "mgamma", "int", "shape", "igam", "bessel", "logadd", "powm1"]
 
 
 def main():
